@@ -81,18 +81,20 @@ package standard
 //@   ensures regCacheOK(s)
 //@   modifies contents(s.signedValidatorRegistrations), contents(s.latestValidatorRegistrations)
 //@
+//@ spec func settingsErr() error
 //@ func (*Service).generateValidatorRegistrationsForAccount
 //@   // the accounts come from the accounts provider, which hands out no nil accounts; a configuration is in force
 //@   requires !isnil(account) && s.executionConfig != nil
 //@   requires regCacheOK(s) && controlledValidators != nil && relayRegistrations != nil && nolocks()
-//@   assumes call ProposerConfig#1 (cfg, err): err == nil ==> cfg != nil && (forall k int :: 0 <= k && k < len(cfg.Relays) ==> cfg.Relays[k] != nil)
+//@   assumes call ProposerConfig#1 (cfg, err): err == settingsErr() && (err == nil ==> cfg != nil && (forall k int :: 0 <= k && k < len(cfg.Relays) ==> cfg.Relays[k] != nil))
 //@   // every relay of the resolved settings gets a registration generated from its own settings, for this validator
 //@   at call generateValidatorRegistrationForRelay#1: assert arg2 == account && arg3 == pubkeyOf(account) && arg4 == proposerConfig.Relays[index] && arg4 == relay
 //@   loop 1
 //@     invariant -1 <= rangeindex && rangeindex < len(proposerConfig.Relays) && regCacheOK(s) && relayRegistrations != nil
 //@     invariant forall k int :: 0 <= k && k < len(proposerConfig.Relays) ==> proposerConfig.Relays[k] != nil
-//@   // a relay whose registration cannot be generated does not stop the others
-//@   ensures result1 == nil ==> !inloop(1)
+//@   // a relay whose registration cannot be generated does not stop the others: with resolvable settings every relay
+//@   // is dealt with and no error comes back
+//@   ensures settingsErr() == nil ==> result1 == nil && !inloop(1)
 //@   ensures regCacheOK(s)
 //@
 //@ func (*Service).submitValidatorRegistrationsForAccounts
